@@ -104,26 +104,31 @@ func JSONGetNaturalLanguageField(val *fastjson.Value, prop string) NaturalLangua
 		return n
 	}
 	v := val.Get(prop)
-	if v == nil {
+	vMap := val.Get(prop + "Map")
+	if v == nil && vMap == nil {
 		return nil
 	}
-	switch v.Type() {
-	case fastjson.TypeObject:
+	// NOTE(marius): the values are the string bytes the parser decoded, they must not be parsed again
+	loadMap := func(v *fastjson.Value) {
 		ob, _ := v.Object()
 		ob.Visit(func(key []byte, v *fastjson.Value) {
-			l := LangRefValue{}
-			l.Ref = LangRef(key)
-			if err := l.Value.UnmarshalJSON(v.GetStringBytes()); err == nil {
-				if l.Ref != NilLangRef || len(l.Value) > 0 {
-					n = append(n, l)
-				}
+			l := LangRefValue{Ref: LangRef(key), Value: Content(v.GetStringBytes())}
+			if l.Ref != NilLangRef || len(l.Value) > 0 {
+				n = append(n, l)
 			}
 		})
-	case fastjson.TypeString:
-		l := LangRefValue{}
-		if err := l.UnmarshalJSON(v.GetStringBytes()); err == nil {
-			n = append(n, l)
+	}
+	if v != nil {
+		switch v.Type() {
+		case fastjson.TypeObject:
+			loadMap(v)
+		case fastjson.TypeString:
+			n = append(n, LangRefValue{Ref: NilLangRef, Value: Content(v.GetStringBytes())})
 		}
+	}
+	// the multi-language form is written under the <prop>Map term
+	if vMap != nil && vMap.Type() == fastjson.TypeObject {
+		loadMap(vMap)
 	}
 
 	return n
